@@ -377,8 +377,9 @@ fn interpret<C: Flavor, Q: CustomQuery>(
             storage_desc: (deps.storage.range(None, None, Order::Descending).collect(), vec![]),
         })
     });
-    apply_writes(deps.storage, &script.writes);
-    let after: Vec<(Vec<u8>, Vec<u8>)> = deps.storage.range(None, None, Order::Descending).collect();
+    let inconsistent = apply_writes(deps.storage, &script.writes);
+    let mut after: Vec<(Vec<u8>, Vec<u8>)> = deps.storage.range(None, None, Order::Descending).collect();
+    after.extend(inconsistent);
     TRACE.with(|t| {
         if let Some(last) = t.borrow_mut().last_mut() {
             last.storage_desc.1 = after;
@@ -409,13 +410,34 @@ fn interpret<C: Flavor, Q: CustomQuery>(
     Ok(resp)
 }
 
-fn apply_writes(storage: &mut dyn Storage, writes: &[(Binary, Option<Binary>)]) {
+/// Applies the scripted writes the way contracts do: read the key, write or remove it, read it again. What the single
+/// reads answer needs no model: before the write the key holds what the iteration at entry (and this script's earlier
+/// writes) showed, afterwards what was just written. Where a read answers something else, a marker record that no
+/// storage ever holds is returned (it is appended to the "after own writes" listing of the trace).
+fn apply_writes(storage: &mut dyn Storage, writes: &[(Binary, Option<Binary>)]) -> Vec<(Vec<u8>, Vec<u8>)> {
+    let mut cur: std::collections::BTreeMap<Vec<u8>, Vec<u8>> = storage.range(None, None, Order::Ascending).collect();
+    let mut bad = vec![];
     for (k, v) in writes {
+        let before = storage.get(k.as_slice());
+        if before.as_ref() != cur.get(k.as_slice()) {
+            bad.push((format!("!get({}) before the write answers other than the iteration", crate::core::hex(k.as_slice())).into_bytes(), before.unwrap_or_default()));
+        }
         match v {
-            Some(v) => storage.set(k.as_slice(), v.as_slice()),
-            None => storage.remove(k.as_slice()),
+            Some(v) => {
+                storage.set(k.as_slice(), v.as_slice());
+                cur.insert(k.to_vec(), v.to_vec());
+            }
+            None => {
+                storage.remove(k.as_slice());
+                cur.remove(k.as_slice());
+            }
+        }
+        let after = storage.get(k.as_slice());
+        if after.as_ref() != cur.get(k.as_slice()) {
+            bad.push((format!("!get({}) after the write answers other than what was written", crate::core::hex(k.as_slice())).into_bytes(), after.unwrap_or_default()));
         }
     }
+    bad
 }
 
 fn reply_script(reply: &Reply) -> (Script, (u64, Vec<u8>, ReplySeen)) {
